@@ -179,12 +179,8 @@ let oracles : Detect.oracles = {
       let q = if ls = [] then "-" else SS.concat ";" (SL.map print_coh ls) in
       parse_coh (ask ("Q MERGE " ^ q)));
   Detect.sb_langs = (fun e -> parse_langs (ask ("Q SBL " ^ hex_of_string (ocaml_string e))));
-  Detect.declared = (fun b ->
-      let a = ask ("Q DECL " ^ hex_of_string (ocaml_of_bytes b)) in
-      match split_sp a with
-      | ["NONE"] -> None
-      | ["SOME"; h] -> Some (coq_string (string_of_hex h))
-      | _ -> failwith ("bad decl answer " ^ a));
+  (* the declaration matcher is the CONCRETE model (Model/Declared.v), not a query *)
+  Detect.declared = (fun b -> Declared.any_specified_encoding b);
 }
 
 (* ---------- printing matches ---------- *)
@@ -289,6 +285,11 @@ let () =
       | "CMP" :: rest -> cmd_cmp rest
       | "NAME" :: rest -> cmd_name rest
       | "CONT" :: rest -> cmd_cont rest
+      | ["DECL"; h] ->
+        (match Declared.any_specified_encoding (bytes_of_ocaml (string_of_hex h)) with
+         | None -> print_string "R NONE\n"
+         | Some n -> print_string ("R " ^ hex_of_string (ocaml_string n) ^ "\n"));
+        flush stdout
       | ["QUIT"] -> exit 0
       | _ -> failwith ("unknown command " ^ l)
     done
